@@ -26,7 +26,9 @@ IsBinFn(r)  == r.fn \in {"betweenness_bin", "edge_betweenness_bin"}
 InDomain(r) ==
   /\ r.n \in 1..10
   /\ IsSquare(r.n, r.A)
-  /\ \A i, j \in 1..r.n : r.A[i][j] \in 0..3
+  (* lengths 1..3, and 2^24 for the mixed-magnitude family (seed round 7): path lengths stay below  *)
+  (* 10 * 2^24 < 2^31                                                                               *)
+  /\ \A i, j \in 1..r.n : r.A[i][j] \in 0..3 \/ r.A[i][j] = 16777216
   /\ DiagZero(r.n, r.A)
   /\ IsBinFn(r) => IsBinary(r.n, r.A)
 
